@@ -62,6 +62,9 @@ def plan(tier, seed):
             d = lops.gen_struct_leaf(rng, kind, maxn)
             if d is not None:
                 P.add("struct:" + kind, desc=d, dt=_dtype(rng))
+    rng = P.rng("nested-stack")
+    for i in range(120 if tier == "quick" else 2000):
+        P.add("nested-stack", desc=lops.gen_nested_stack(rng), dt=_dtype(rng), depth=2)
     rng = P.rng("tree")
     for i in range(ntrees):
         depth = int(rng.integers(1, 4 if tier == "quick" else 5))
@@ -118,7 +121,7 @@ def run_case(case):
             if k < 3:
                 # third pair: data with structure Gaussian draws never have (constant,
                 # alternating, one-hot, exact ties, powers of two, signed zeros, denormals)
-                with structured(sum(case["rs"]) % 9 if k == 2 else 0):
+                with structured(sum(case["rs"]) % 10 if k == 2 else 0):
                     x = crandn(rng, ish, dt)
                     y = crandn(rng, osh, dt if dt.kind == "c" else np.float64)
                 if k == 1:          # memory-layout variant: Fortran-ordered probes
